@@ -149,9 +149,19 @@ func VerifH03c() {
 	}
 	// what was committed is durable as committed: a clean restart shows exactly the committed
 	// state (open transactions are gone with the process)
-	concreteCounter = true // same process: the counter's role across processes is C05's subject
+	concreteCounter = true // same process first
 	w.reopen("H03c")
 	w.checkReads("H03c.after-reopen")
+	// ... and in a NEW process (its counter starts at zero and is set by Load): a snapshot
+	// transaction that begins now and writes a key conflicts with nothing
+	nd.Assert(w.d.Close() == nil, "H03c.close")
+	newProcess()
+	w.d, w.c = openSeq(w.cfg)
+	w.checkReads("H03c.new-process")
+	fresh := w.begin(fs_db.IsoLevelSerializable)
+	nd.Assert(w.doSet(fresh, "a", w.freshVal(), 0) == nil, "H03c.write-after-restart")
+	w.commit(fresh, "H03c.after-restart")
+	w.checkReads("H03c.after-restart-commit")
 	nd.Reach("H03c.end")
 }
 
